@@ -12,7 +12,11 @@ import Robsd.Gen.Consts
   arrives (`sig`), when the main process can be reaped on its own
   (`natural`), and whether/when it can be reaped after SIGTERM and after
   SIGKILL were sent to the group (`afterTerm`, `afterKill`, one entry per
-  poll).  What `kill(-pgid, sig)` does to the members of the group is the
+  poll).  `late i` is a signal that arrives in iteration `i` AFTER the runner
+  looked at `gotsig` and before its `waitpid`: if that `waitpid` reaps the main
+  process the loop is left and the check after the loop sends SIGTERM to what
+  is left of the group; otherwise the next iteration's check sees the signal.
+  What `kill(-pgid, sig)` does to the members of the group is the
   kernel's business and not modelled (C07 is partial for that reason).
 -/
 namespace Robsd
@@ -34,9 +38,11 @@ structure Env where
   natural : Nat → Option WStatus
   afterTerm : Nat → Option WStatus
   afterKill : Nat → Option WStatus
+  late : Nat → Option Sig := fun _ => none
 
 inductive Act where
   | killTerm            -- kill(-pgid, SIGTERM)
+  | killTermLate        -- the check after the loop: kill(-pgid, SIGTERM), the main process is already reaped
   | killKill            -- kill(-pgid, SIGKILL)
   | reap (st : WStatus) -- waitpid returned the main process
   | giveUp              -- both bounded waits expired
@@ -82,8 +88,16 @@ def loop (e : Env) : Nat → Nat → List Act × Nat
       (acts, exitOf st (some s))
     | none =>
       match e.natural i with
-      | some st => ([.reap st], exitOf st none)
-      | none => loop e fuel (i + 1)
+      | some st =>
+        match e.late i with
+        | some s => ([.reap st, .killTermLate], exitOf st (some s))
+        | none => ([.reap st], exitOf st none)
+      | none =>
+        match e.late i with
+        | some s =>
+          let (acts, st) := killwait e
+          (acts, exitOf st (some s))
+        | none => loop e fuel (i + 1)
 
 def run (e : Env) (fuel : Nat) : List Act × Nat := loop e fuel 0
 
